@@ -1,6 +1,22 @@
 package dissect
 
-import "unicode"
+// Lowers ASCII letters only. Bytes >= 0x80 (parts of multi-byte UTF-8
+// sequences) are left as-is so they still compare equal to themselves
+func lowerByte(c byte) byte {
+	if 'A' <= c && c <= 'Z' {
+		return c + ('a' - 'A')
+	}
+	return c
+}
+
+// Lower-cases a needle the same way indexIgnoreCase folds the haystack
+func lowerASCII(s string) string {
+	b := []byte(s)
+	for i, c := range b {
+		b[i] = lowerByte(c)
+	}
+	return string(b)
+}
 
 // Finds case-insensitive index of second string
 // ASSUMES second string is already lowered (optimization)
@@ -13,7 +29,7 @@ func indexIgnoreCase(s, loweredSubstr string) int {
 		return -1
 	case len(s) == n:
 		for i := 0; i < n; i++ {
-			if unicode.ToLower(rune(s[i])) != rune(loweredSubstr[i]) {
+			if lowerByte(s[i]) != loweredSubstr[i] {
 				return -1
 			}
 		}
@@ -22,7 +38,7 @@ func indexIgnoreCase(s, loweredSubstr string) int {
 		for i := 0; i <= len(s)-n; i++ {
 			match := true
 			for j := 0; j < n; j++ {
-				if unicode.ToLower(rune(s[i+j])) != rune(loweredSubstr[j]) {
+				if lowerByte(s[i+j]) != loweredSubstr[j] {
 					match = false
 					break
 				}
